@@ -122,3 +122,5 @@ func VResetGlobal()                                        { internal.VResetGlob
 func VInjectClient(eps []string, cli internal.EtcdClient)  { internal.VInjectClient(eps, cli) }
 func VReloadGlobal(eps []string, cli internal.EtcdClient) bool { return internal.VReloadGlobal(eps, cli) }
 func VGlobalValues(eps []string, key string) string        { return internal.VGlobalValues(eps, key) }
+func VGlobalListeners(eps []string, key string, exact bool) int { return internal.VGlobalListeners(eps, key, exact) }
+func VGlobalValuesOf(eps []string, key string, exact bool) string { return internal.VGlobalValuesOf(eps, key, exact) }
